@@ -364,6 +364,25 @@ class Impl(object):
         res = dict(exc=None)
         if case['path'] == 'local':
             ctr = self.build_local(case)
+            route = drv.cfg.tx_route_table[0]
+            if case.get('preset_sender'):
+                # an application (or an earlier send) left a send function on the container
+                ctr.sender = drv.cl['fake'].send_bundle_func(dict(route.raw_config))
+            # send HISTORY: the same container was sent before, while the route had other MTUs; the container
+            # carries state from one send to the next (route, sender, CRC values, block numbers)
+            res['history'] = []
+            for old_mtu in case.get('history', ()):
+                route.mtu = old_mtu
+                before = len(drv.transmitted)
+                exc = None
+                try:
+                    drv.agent.send_bundle(ctr)
+                except Exception as err:
+                    exc = err.__class__.__name__
+                drv.drain()
+                res['history'].append(dict(mtu=old_mtu, exc=exc, sizes=[ent['size'] for ent in drv.transmitted[before:]]))
+            route.mtu = mtu
+            mark = len(drv.transmitted)
             try:
                 drv.agent.send_bundle(ctr)
             except Exception as err:  # the caller of send_bundle sees this
@@ -375,7 +394,7 @@ class Impl(object):
             res['exc'] = obs['decode_error'] or obs['recv_exc']
             res['escaped'] = obs['escaped']
         sent = [bytes.fromhex(ent['raw_hex']) for ent in drv.transmitted[mark:]]
-        del drv.transmitted[mark:]
+        del drv.transmitted[:]
         res['tx'] = []
         res['reports'] = []
         for raw in sent:
@@ -435,7 +454,7 @@ def grid(quick):
     for (path, ext) in (('local', 'none'), ('fwd', 'repl')):
         probe = base_case(path, 300, ext=EXT_SETS[ext])
         top = ref_size(probe) + (40 if path == 'fwd' else 0) + 3
-        step = (1 if path == 'local' else 3) if not quick else (3 if path == 'local' else 7)
+        step = (1 if path == 'local' else 3) if not quick else (5 if path == 'local' else 11)
         for mtu in range(48, top, step):
             add(dict(probe, mtu=mtu), 'sweep300-' + path)
     # B. payload lengths at the head boundaries, MTUs that put fragment lengths at the boundaries
@@ -452,7 +471,7 @@ def grid(quick):
                 if plen >= 254:
                     mtus |= {over + 254 + d for d in range(-3, 8)}
                 if quick:
-                    mtus = set(sorted(mtus)[(crc + (path == 'fwd')) % 2::2]) | {size - 1, size}
+                    mtus = set(sorted(mtus)[(crc + (path == 'fwd')) % 3::3]) | {size - 1, size}
                 for mtu in sorted(val for val in mtus if val > 0):
                     add(dict(probe, mtu=mtu), 'boundary')
     # C. extension-block sets with and without the replicate flag, both origins, all CRC types
@@ -463,7 +482,7 @@ def grid(quick):
                     probe = base_case(path, plen, crc=crc, ext=ext)
                     size = ref_size(probe)
                     for mtu in (size - plen + 4, size - plen + 30, size - plen // 2, size - 1, size + 45):
-                        if quick and crc == 0 and mtu % 2:
+                        if quick and (crc != 2 or plen == 40) and mtu % 2:
                             continue
                         add(dict(probe, mtu=mtu), 'ext-' + name)
     # D. do-not-fragment, already a fragment, fits, no MTU, no route MTU at all, report requests
@@ -471,31 +490,46 @@ def grid(quick):
         for plen in (10, 300):
             for ext in ('none', 'mixed'):
                 probe = base_case(path, plen, ext=EXT_SETS[ext])
-                for mtu in (None, 60, 100, 200, 1000):
+                for mtu in ((None, 60, 200) if quick else (None, 60, 100, 200, 1000)):
                     add(dict(probe, mtu=mtu, flags=FLAG_NOFRAG), 'no-fragment')
                     add(dict(probe, mtu=mtu, frag=[100, 5000]), 'already-fragment')
                     add(dict(probe, mtu=mtu, flags=FLAG_NOFRAG | 0x40, frag=[0, 5000]), 'already-fragment')
                     add(dict(probe, mtu=mtu), 'plain')
                     add(dict(probe, mtu=mtu, flags=0x040000 | 0x010000 | 0x004000, report_to='dtn://src/rpt'), 'report-requests')
     # E. long payloads: total length and fragment lengths around 65535/65536 (and the 5-octet head)
-    big = [(65535, 30000), (65536, 30000), (65537, 1500), (65536, 65560), (70000, 66000)]
-    for probe_len in (65535, 65536, 65537):
+    big = [(65536, 30000), (65537, 1500), (65536, 65560)]
+    for probe_len in ((65536,) if quick else (65535, 65536, 65537)):
         probe = base_case('local', 140000)
         over = ref_size(probe) - 140000
         big.append((140000, over + 2 + probe_len))
-    big += [(65536, 70), (65600, 65590), (65600, 65700)]
+    big += [(65536, 70), (65600, 65590)]
     if not quick:
-        big += [(65536, 700), (200000, 66000), (65535, 65535), (65536, 65536), (66000, 32768)]
+        big += [(65535, 30000), (70000, 66000), (65600, 65700), (65536, 700), (200000, 66000), (65535, 65535), (65536, 65536), (66000, 32768)]
     for (idx, (plen, mtu)) in enumerate(big):
-        for path in (('local', 'fwd') if (not quick or idx % 3 == 0) else ('local',)):
+        for path in (('local', 'fwd') if (not quick or idx == 0) else ('local',)):
             add(base_case(path, plen, crc=(2 if idx % 2 else 1), mtu=mtu, ext=EXT_SETS['repl']), 'big')
     # F. security policy on (the default policy shape: sign the payload of own-source bundles)
     for (plen, mtu) in ((600, 250), (600, 200), (300, 150), (40, 1000), (300, 60)):
         add(base_case('local', plen, mtu=mtu, policy=True), 'policy-local')
         add(base_case('fwd', plen, mtu=mtu, policy=True, ext=EXT_SETS['repl']), 'policy-fwd')
+    # H. send HISTORIES on one agent: the SAME container is sent again after the route MTU changed (the container keeps
+    #    route / sender / CRC state between sends), a container that arrives with a send function already set, a
+    #    container re-sent after a failed attempt.  The judged send is the last one; every earlier prefix is a case too.
+    for (plen, crc, ext) in ((300, 2, 'none'), (300, 1, 'mixed'), (40, 2, 'repl'), (600, 0, 'plain'))[:(2 if quick else 4)]:
+        probe = base_case('local', plen, crc=crc, ext=EXT_SETS[ext])
+        size = ref_size(probe)
+        small = size - plen // 2          # must be split, can be
+        small2 = size - plen + 30
+        never = 40                        # must be split, cannot be
+        for (hist, mtu, pre) in (
+                ([None], small, False), ([size + 10], small, False), ([None], never, False), ([small], never, False),
+                ([never], small, False), ([never], None, False), ([small], None, False), ([small], size, False),
+                ([None, small], small2, False), ([small, never], small2, False), ([never, never], small, False),
+                ([], small, True), ([], never, True), ([], size, True), ([], None, True), ([None], small, True), ([never], small, True)):
+            add(dict(probe, history=list(hist), mtu=mtu, preset_sender=pre), 'history')
     # G. random
     rng = chk.rng
-    for _ in range(100 if quick else 4000):
+    for _ in range(60 if quick else 4000):
         path = rng.choice(('local', 'fwd'))
         plen = rng.choice((rng.randrange(0, 40), rng.randrange(0, 700), rng.randrange(200, 300), rng.randrange(0, 3000)))
         ext = []
@@ -534,7 +568,7 @@ def coq_case(skel, case):
 
 def observe(case):
     ''' Reference run (route without MTU) and the run under test. '''
-    ref = IMPL.run(case, None)
+    ref = IMPL.run(dict(case, history=[], preset_sender=False), None)
     got = IMPL.run(case, case['mtu'])
     return (ref, got)
 
@@ -568,8 +602,19 @@ def judge(case, ref, got, model):
                           % (case['plen'], mtu, [len(x) for x in got['tx']], removed, [len(x) for x in norm])))
             verdict = []
             sent_cmp = norm
+    hist = ''
+    if case.get('history') or case.get('preset_sender'):
+        # the hand-offs of THIS send are judged against the MTU in force now, whatever the container went through before
+        hist = ' / same container re-sent after MTU %s%s' % (
+            ','.join('none' if val is None else ('ok' if val >= len(ref_raw) else 'small') for val in case.get('history', ())) or '-',
+            ' / sender pre-set' if case.get('preset_sender') else '')
+    must_split = (mtu is not None and len(ref_raw) > mtu and not view(ref_raw)['flags'] & (FLAG_NOFRAG | FLAG_FRAG))
+    if case['path'] == 'local' and must_split and not got['tx'] and got['exc'] is None:
+        verdict.append(('no-failure-reported', 'nothing was handed to the convergence layer for a %d-octet bundle on MTU %d, yet send_bundle() '
+                        'returned normally: the caller cannot tell the bundle was not sent' % (len(ref_raw), mtu)))
     for (kind, text) in verdict:
-        fails.append(('%s / policy %s / %s' % (case['path'], 'on' if case.get('policy') else 'off', kind), text))
+        fails.append(('%s / policy %s%s / %s' % (case['path'], 'on' if case.get('policy') else 'off', hist, kind),
+                      text + (' [history %s]' % got.get('history') if hist else '')))
     # correspondence with the model
     corr = True
     detail = ''
@@ -662,7 +707,7 @@ def gen_table():
     ''' Rows (mtu, orig, payload_size, pse, template size, offset, bundle flags, block flags, block num). '''
     rows = []
     rng = chk.rng
-    for _ in range(400):
+    for _ in range(200 if chk.quick() else 1000):
         ps = rng.choice((0, 1, 23, 24, 255, 256, 300, 65535, 65536, rng.randrange(0, 70000)))
         pse = len(cbor2.dumps(ps))
         over = rng.randrange(20, 200)
@@ -785,6 +830,10 @@ ASSUMPTIONS = [
     'bundles without a payload block (modelled as NoPayload = sent as is; not generated)',
     'one agent is reused across cases (route MTU switched; duplicate-suppression set, reassembly table and -- for trees older than ed76b97 -- the '
     'class-level sticky block numbers cleared before every run): each send request is observed as the first one of a process',
+    'container-carried state (BundleContainer.route / .sender, CRC values, block numbers left by an earlier send) is not part of the model: '
+    'Model/BpFrag.send_history is map (send_request b) over the MTUs.  That it has no influence is covered by the history correspondence: '
+    'the same container is re-sent on one agent after the route MTU changed / with a sender pre-set / after a failed attempt, and every '
+    'hand-off of the judged send is compared with the model and judged against the MTU in force at that send',
     'security policy: the BPSec apply step is abstract in the theorems (any bundle transformer); the implementation is run with the default policy '
     'shape (sign the payload of own-source bundles) and an HMAC-256 key',
 ]
@@ -793,7 +842,7 @@ RULE = ('boundary-directed grid + seeded random cases; each case = (origin local
         'policy).  Grid: every MTU from below the feasibility limit to above the bundle size for a 300-octet payload; payload lengths '
         '0,1,23,24,255,256,600 (thorough: also 2,22,25,254,257) x MTUs placing fragment lengths at 23/24 and 255/256; payloads 65535..65537, 70000, 140000 with fragment lengths at '
         '65535/65536/65537; extension sets none/plain/replicated/mixed/hop-count+age x CRC 0/1/2; do-not-fragment, already-a-fragment, fits, no MTU, '
-        'infeasible MTUs; policy on.  Every case is run twice through the real agent (route without MTU = reference, route with the MTU), through '
+        'infeasible MTUs; policy on; send HISTORIES (the same container re-sent after the route MTU went none->small, large->small, small->impossible, impossible->small, ...; sender pre-set; every hand-off judged against the MTU in force at that send, a refused send must raise).  Every case is run twice through the real agent (route without MTU = reference, route with the MTU), through '
         'Model/BpFrag.run_case (vm_compute; compared by length, 64-bit digest and the first 96 octets of every transmitted bundle) and through '
         'the oracle.  distinct = distinct case; non-trivial = the fragment step split the bundle or refused it (model result code 1 or 2).')
 
